@@ -231,6 +231,9 @@ class SReal(object):
         raise EngineGap('complex() of a symbolic real')
 
 
+numbers.Real.register(SReal)
+
+
 def arith(op, a, b):
     """a op b on python numbers / SReal with light constant simplification."""
     an, bn = not isinstance(a, SReal), not isinstance(b, SReal)
